@@ -2,9 +2,11 @@
 import json
 import os
 import re
+import resource
 import shutil
 import signal
 import subprocess
+import threading
 import time
 
 KANI_ENV = {
@@ -34,6 +36,11 @@ def _run(cmd, cwd, log, timeout, mem_gb, env):
     t0 = time.time()
     with open(log, "w") as lf:
         p = subprocess.Popen(["bash", "-c", sh], cwd=cwd, stdout=lf, stderr=subprocess.STDOUT, env=env, start_new_session=True)
+        # Kani prepends its own bin directory to PATH, so the tools/bin/cbmc wrapper is bypassed: cap every cbmc
+        # of this session from outside (prlimit RLIMIT_AS) as soon as it appears
+        stop = threading.Event()
+        wd = threading.Thread(target=_cap_cbmc, args=(p.pid, int(mem_gb * 1024 * 1024 * 1024), stop, log), daemon=True)
+        wd.start()
         try:
             rc = p.wait(timeout=timeout)
             timed_out = False
@@ -45,7 +52,58 @@ def _run(cmd, cwd, log, timeout, mem_gb, env):
                 pass
             p.wait()
             rc = -9
+        finally:
+            stop.set()
     return rc, timed_out, time.time() - t0
+
+
+OOM_KILLED = {}  # log path -> list of goto-binary names whose cbmc was killed for memory
+
+
+def _cap_cbmc(sid, cap_bytes, stop, log=None):
+    """RSS watchdog: kill any cbmc of this session whose resident set exceeds the cap, and the largest one when the
+    machine runs short of memory (no swap here).  RLIMIT_AS is not used: cadical reserves far more address space
+    than it touches."""
+    page = os.sysconf("SC_PAGE_SIZE")
+    while not stop.is_set():
+        try:
+            procs = []
+            for ent in os.listdir("/proc"):
+                if not ent.isdigit():
+                    continue
+                pid = int(ent)
+                try:
+                    if os.getsid(pid) != sid:
+                        continue
+                    if os.path.basename(os.readlink("/proc/%d/exe" % pid)) != "cbmc":
+                        continue
+                    rss = int(open("/proc/%d/statm" % pid).read().split()[1]) * page
+                    procs.append((rss, pid))
+                except (OSError, ValueError, IndexError):
+                    continue
+            avail = None
+            try:
+                for ln in open("/proc/meminfo"):
+                    if ln.startswith("MemAvailable:"):
+                        avail = int(ln.split()[1]) * 1024
+                        break
+            except OSError:
+                pass
+            victims = [(r, p) for r, p in procs if r > cap_bytes]
+            if not victims and avail is not None and avail < 3 * 1024 ** 3 and procs:
+                victims = [max(procs)]
+            for rss, pid in victims:
+                try:
+                    cmd = open("/proc/%d/cmdline" % pid).read().split("\0")
+                    name = [c for c in cmd if c.endswith(".out")]
+                    os.kill(pid, signal.SIGKILL)
+                    if log is not None:
+                        OOM_KILLED.setdefault(log, []).append((name[-1] if name else "", rss))
+                except OSError:
+                    pass
+        except OSError:
+            pass
+        stop.wait(0.5)
 
 
 def _q(s):
@@ -156,6 +214,13 @@ def run_group(stage_dir, crate, harnesses, jobs, harness_timeout, mem_gb, tag, e
                 res["status"] = "timeout"
             elif m and re.search(r"(?i)out of memory|bad_alloc|std::bad_alloc|killed", m.group(1)):
                 res["status"] = "oom"
+    for gb, rss in OOM_KILLED.pop(log, []):
+        for h in harnesses:
+            short = h.split("::")[-1]
+            # the goto binary is named after the mangled harness path: ...<len><name>.out
+            if gb.endswith("%d%s.out" % (len(short), short)) and results[h]["status"] != "success":
+                results[h]["status"] = "oom"
+                results[h]["detail"] = "cbmc killed by the memory watchdog at %.1f GB resident" % (rss / 1024.0 ** 3)
     if timed_out:
         for h in harnesses:
             if results[h]["status"] == "missing":
